@@ -132,6 +132,7 @@ func globalTrustedBase() []string {
 		"integers: mathematical Int with exact wrap for unsigned types; signed overflow is an obligation unless the contract says `nooverflow`; len(x) <= 2^56 assumed in overflow obligations",
 		"slices are modelled by value (no aliasing between distinct slice variables); callbacks do not write the verified object's state; GOARCH is 64-bit",
 		"termination is proved only where a `decreases` clause is given",
+		"package-level variables of type error (io.EOF, ErrXxx sentinels) are non-nil and never reassigned; package-level tables are read from their constant initializers",
 	}
 }
 
